@@ -2,6 +2,7 @@
 from campaigns.sweep import SweepRoundTrip
 from campaigns.testcmd import TestCmd
 from campaigns.life import Life
+from campaigns.faultpos import FaultPos
 
 PROPERTY = "C02"
 LEVEL = "exploration"
@@ -16,7 +17,8 @@ ASSUMPTIONS = ["states reachable by bumping = the states the seeded histories re
                "the SWEEP leg calls library entry points through one adapter module, everything else goes through the CLI"]
 COMPONENTS = {"bumpver v2version/v2patterns (adapter), cli test/update/show": "real", "clock": "simulated"}
 CAMPAIGNS = [SweepRoundTrip(), TestCmd("C02", quick=12000, thorough=400000, sv_rate=0.1),
-             Life("C02", quick=3000, thorough=120000, sv_rate=0.1)]
+             Life("C02", quick=3000, thorough=120000, sv_rate=0.1),
+             FaultPos("C02", quick=400, thorough=12000, only=("cover_first",))]
 
 
 def sanity_gate(tier, total):
